@@ -507,8 +507,14 @@ def rule_merge(ctx: Ctx):
                 tg = [x.id for x in ast.walk(lp.target) if isinstance(x, ast.Name)]
                 if it == other and len(tg) == 2 and [norm(a) for a in add_call.args] == [tg[0], f"{tg[1]}.segment", f"{tg[1]}.annotation"]:
                     ok_add = True
-        ctx.check(ok_add, "R-C13-5", f, add_call, "every (annotator, unit) of the merged continuum is added with its own segment and label",
-                  bad_detail="units of the other continuum are not all re-added faithfully", key="units")
+        recognised = add_call is not None and bool(enclosing(f.node, add_call, (ast.For,))) and \
+            norm(enclosing(f.node, add_call, (ast.For,))[-1].iter) == other
+        if ok_add or recognised:
+            ctx.check(ok_add, "R-C13-5", f, add_call, "every (annotator, unit) of the merged continuum is added with its own segment and label",
+                      bad_detail="units of the other continuum are not re-added with their own annotator, segment and label", key="units")
+        else:
+            ctx.undecided("R-C13-5", f, add_call, "merge does not re-add the other continuum's units with `for annotator, unit in other: target.add(...)`: "
+                          "shape not recognised (not a verdict)", key="units")
         ann_call = next((n for n in adds if n.func.attr == "add_annotator"), None)
         ok_ann = False
         if ann_call is not None:
@@ -516,8 +522,11 @@ def rule_merge(ctx: Ctx):
             if loops and norm(loops[-1].iter) in (f"{other}.annotators", f"{other}._annotations", f"{other}._annotations.keys()") \
                     and norm(ann_call.args[0]) == norm(loops[-1].target):
                 ok_ann = True
-        ctx.check(ok_ann, "R-C13-5", f, ann_call, "every annotator of the merged continuum exists afterwards, even without units",
-                  bad_detail="annotators without units are lost by merge", key="annotators")
+        if ok_ann or ann_call is not None or (ok_add or recognised):
+            ctx.check(ok_ann, "R-C13-5", f, ann_call, "every annotator of the merged continuum exists afterwards, even without units",
+                      bad_detail="annotators without units are lost by merge (no add_annotator for every annotator of the other continuum)", key="annotators")
+        else:
+            ctx.undecided("R-C13-5", f, None, "how merge creates the other continuum's annotators is not recognised (not a verdict)", key="annotators")
         rets = [n for n in walk_no_nested(f.node) if isinstance(n, ast.Return) and n.value is not None]
         ctx.check(all(isinstance(r.value, ast.Name) and r.value.id == target_var for r in rets) and bool(rets), "R-C13-5", f,
                   rets[0] if rets else None, "out-of-place merge returns the merged copy", key="return")
